@@ -571,7 +571,7 @@ class NpModule(object):
                   'uint8', 'uint16', 'uint32', 'uint64', 'bool_', 'float_', 'int_', 'complex_'):
             t[n] = DTSpec(n)
         t['pi'] = 3.141592653589793
-        t['inf'] = float('inf')
+        t['inf'] = t['infty'] = t['Inf'] = t['Infinity'] = float('inf')
         t['nan'] = float('nan')
         t['newaxis'] = None
         t['ndarray'] = ip.ExtClass('ndarray', (ip.OBJECT,))
